@@ -1,6 +1,7 @@
 import PhyVerif.Driver.Json
 import PhyVerif.Driver.C16
 import PhyVerif.Driver.C15
+import PhyVerif.Driver.C07
 open Lean PhyVerif.Driver
 
 def dispatch (j : Json) : R Json := do
@@ -9,6 +10,7 @@ def dispatch (j : Json) : R Json := do
   match p with
   | "C16" => runC16 op j
   | "C15" => runC15 op j
+  | "C07" => runC07 op j
   | _ => .error s!"unknown property {p}"
 
 def handle (line : String) : String :=
